@@ -383,6 +383,9 @@ def int_of(t_):
     return None
 
 
+RLIMIT_PER_MS = 9000
+
+
 class Stats:
     def __init__(s):
         s.feas_queries = 0
@@ -454,6 +457,15 @@ class Engine:
             # satisfiability question of the other side once one side is refuted
             rf = s.oneshot(z3.Not(cond), s.FEAS_TIMEOUT)
             rt = z3.sat if rf == z3.unsat else s.oneshot(cond, s.FEAS_TIMEOUT)
+            if z3.unknown in (rf, rt) and getattr(s, 'FEAS_RETRY', True):
+                # a branch side that could not be refuted in time is explored (sound) - but a spurious path costs far more
+                # later than a second, longer look now (time-outs under load must not create them)
+                if rf == z3.unknown:
+                    rf = s.oneshot(z3.Not(cond), s.FEAS_TIMEOUT * 4)
+                if rt == z3.unknown and rf != z3.unsat:
+                    rt = s.oneshot(cond, s.FEAS_TIMEOUT * 4)
+                elif rf == z3.unsat:
+                    rt = z3.sat
             # undecided feasibility never prunes: explore the branch (at worst a vacuous path)
             if rt == z3.unknown:
                 rt = z3.sat
@@ -502,7 +514,10 @@ class Engine:
     def oneshot(s, extra, timeout):
         t = time.time()
         so = z3.Solver()
-        so.set('timeout', timeout)
+        # budgets are z3 resource units (deterministic, independent of the load of the machine: ~9000 units per nominal
+        # millisecond on this hardware); the wall-clock limit is only a safety net
+        so.set('rlimit', int(timeout * RLIMIT_PER_MS))
+        so.set('timeout', int(timeout * 10))
         so.add(*s.pc)
         so.add(extra)
         r = so.check()
